@@ -85,7 +85,16 @@ class Sched:
                 en.append((name, "go"))
         return sorted(en)
 
-    def run(self, max_steps=20000):
+    def _fair_choice(self, en):
+        """Fair completion: prefer steps that are not timeouts, rotating over threads; when only timeouts are enabled fire
+        them in turn and count the round (a system where, round after round, nobody can do anything but time out is stuck)."""
+        nt = [e for e in en if e[1] != "timeout"]
+        pool = nt or en
+        self._rr = getattr(self, "_rr", 0) + 1
+        self._idle_rounds = 0 if nt else getattr(self, "_idle_rounds", 0) + 1
+        return pool[self._rr % len(pool)]
+
+    def run(self, max_steps=20000, fair_steps=60000):
         while True:
             with self.cv:
                 t0 = time.time()
@@ -101,10 +110,18 @@ class Sched:
                 if not en:
                     self.abort()
                     return "deadlock"
-                if self.steps >= max_steps:
+                if self.steps >= max_steps + fair_steps:
                     self.abort()
                     return "budget"
-                choice = self.chooser(en, self)
+                if self.steps >= max_steps:
+                    # the (possibly unfair) exploration policy has had its share: finish under a fair schedule, so that only a
+                    # run that cannot terminate under fairness is reported as not terminating
+                    choice = self._fair_choice(en)
+                    if getattr(self, "_idle_rounds", 0) > 8 * (len(self.alive) + 1):
+                        self.abort()
+                        return "deadlock"
+                else:
+                    choice = self.chooser(en, self)
                 if choice is None:
                     self.abort()
                     return "unfollowable"
